@@ -1,7 +1,11 @@
 (* DriverRefine.v — case kind [loopfrag]: is a [loopm] case inside the fragment the refinement
    theorems (Props/C05.v, c05_exec_refines) quantify over?  Same arguments as [loopm]; the answer
-   is "in" (no password, first label D0, every later label classified and good) or "out:<why>". *)
-From MPD Require Import Bytes Tables Show ServerModel DriverLoop LoopRefine.
+   is "in" (no password, first label D0, every later label classified and good) or "out:<why>".
+   With cancellations (x<id>), which the refinement does not cover but the erasure theorem (Props/C01.v,
+   c01_exec_cancel_session) reduces to the run without them: "in+x" when the label list is in that theorem's domain
+   (cancel_ok: no h, no a, distinct request ids) and the list with every x replaced by t0 is in the fragment;
+   "x-ok:<label>" when only the erasure theorem applies (<label> is the first one outside the fragment). *)
+From MPD Require Import Bytes Tables Show ServerModel DriverLoop LoopRefine LoopCancel.
 Open Scope N_scope.
 
 Fixpoint first_bad (cf : sconf) (labs : list bytes) : option bytes :=
@@ -23,7 +27,13 @@ Definition run_loopfrag (args : list bytes) : bytes :=
       if negb (beq d0 (b "D0")) then b "out:first-label"
       else match first_bad (parse_conf conf) labs with
            | None => b "in"
-           | Some l => b "out:" ++ l
+           | Some l =>
+             if existsb is_cancel labs && cancel_ok [] labs then
+               match first_bad (parse_conf conf) (map erase_label labs) with
+               | None => b "in+x"
+               | Some l' => b "x-ok:" ++ l'
+               end
+             else b "out:" ++ l
            end
     end
   | _ => b "out:short"
